@@ -492,11 +492,19 @@ class LaserPath:
         -------
         None
         """
-        self._x = np.append(self._x, x.astype(np.float32))
-        self._y = np.append(self._y, y.astype(np.float32))
-        self._z = np.append(self._z, z.astype(np.float32))
-        self._f = np.append(self._f, f.astype(np.float32))
-        self._s = np.append(self._s, s.astype(np.float32))
+        x, y, z, f, s = (np.asarray(arr).astype(np.float32) for arr in (x, y, z, f, s))
+
+        # nothing but finite coordinates and positive feed rates may enter a path (also after the cast to single precision)
+        if not all(np.all(np.isfinite(arr)) for arr in (x, y, z, f, s)):
+            raise ValueError('Try to add NaN or infinite values to the laser path. Check the input parameters.')
+        if np.any(f <= 0):
+            raise ValueError('Try to add a point with F <= 0.0 mm/s. Check speed parameter.')
+
+        self._x = np.append(self._x, x)
+        self._y = np.append(self._y, y)
+        self._z = np.append(self._z, z)
+        self._f = np.append(self._f, f)
+        self._s = np.append(self._s, s)
 
     def linear(
         self,
